@@ -10,7 +10,7 @@
    Unmod (the code would read or write outside its buffers, loop, or take a
    path this model does not cover) | NoFuel.  No proofs in this file. *)
 From Coq Require Import List ZArith Bool.
-From RtoscV Require Import Pretty.Tok Pretty.FloatFmt Pretty.TimeFmt.
+From RtoscV Require Import Pretty.Tok Pretty.FloatFmt Pretty.FloatArith Pretty.TimeFmt.
 Import ListNotations.
 Local Open Scope Z_scope.
 
@@ -437,7 +437,7 @@ Definition scan_llhs (before : list av) (nb : Z) : option av :=
   | Some (VRep num hd) =>
       if negb (hd =? 0)
       then match back before 2, back before 1 with
-           | Some delta, Some start => range_arg delta start (num - 1)
+           | Some delta, Some start => range_arg_x delta start (num - 1)
            | _, _ => None end
       else back before 1
   | _ => back before 1
@@ -478,7 +478,7 @@ Definition scan_ellipsis (rec : scan_t) (vs : list av) (r : str) (before : list 
           | None => Unmod
           | Some (useless, llhs) =>
               if infinite && useless then Ok ([VRep 0 0; lhs], r2)
-              else match delta_from_arg_vals llhs lhs rhs useless with
+              else match delta_x llhs lhs rhs useless with
                    | None => Unmod
                    | Some (num, delta) =>
                        if infinite && (num =? -1) then Ok ([VRep 0 0; lhs], r2)
@@ -746,7 +746,7 @@ Definition skip_ellipsis (rec : skip_t) (sfuel : nat) (old_src r : str) (k ty dl
           else
             match lhsarg, (if useless then lhsarg else llhsarg) with
             | Some lh, Some la =>
-                match delta_from_arg_vals la lh rhsarg useless with
+                match delta_x la lh rhsarg useless with
                 | None => Unmod
                 | Some (num, _) =>
                     if num =? -1 then (if infinite then Ok (endsrc, k + 1, 45) else Null)
